@@ -115,13 +115,13 @@ impl clap::ValueEnum for SimEnum {
         Some(match self {
             SimEnum::Fast => PossibleValue::new("fast"),
             SimEnum::Slow => PossibleValue::new("slow").alias("s"),
-            SimEnum::HiddenOne => PossibleValue::new("hidden-one").alias("hush").hide(true),
+            SimEnum::HiddenOne => PossibleValue::new("hidden-one").alias("hush").aliases(["mute", "shh"]).hide(true),
         })
     }
 }
 
 /// The language of `ValParser::EnumVp`: (spelling, Debug text of the variant).
-pub const SIM_ENUM_LANGUAGE: &[(&str, &str)] = &[("fast", "Fast"), ("slow", "Slow"), ("s", "Slow"), ("hidden-one", "HiddenOne"), ("hush", "HiddenOne")];
+pub const SIM_ENUM_LANGUAGE: &[(&str, &str)] = &[("fast", "Fast"), ("slow", "Slow"), ("s", "Slow"), ("hidden-one", "HiddenOne"), ("hush", "HiddenOne"), ("mute", "HiddenOne"), ("shh", "HiddenOne")];
 
 /// (unsigned target?, lowest, highest) of the language of `ValParser::Edge(k)`; lowest > highest = empty.
 pub fn edge_language(k: u8) -> (bool, i128, i128) {
@@ -815,8 +815,12 @@ pub fn candidate_list(kind: u8) -> Vec<clap_complete::engine::CompletionCandidat
 
 pub fn build_pv(p: &PvSpec) -> PossibleValue {
     let mut v = PossibleValue::new(p.name.clone());
-    for a in &p.aliases {
-        v = v.alias(a.clone());
+    // the first alias through `alias`, the others through `aliases`: both setters add to the list
+    if let Some((first, rest)) = p.aliases.split_first() {
+        v = v.alias(first.clone());
+        if !rest.is_empty() {
+            v = v.aliases(rest.to_vec());
+        }
     }
     if p.hide {
         v = v.hide(true);
